@@ -182,15 +182,25 @@ TREND_METHODS_THEOREMS = ["src_Trend_predict_bcast", "src_Trend_predict_eq", "sr
 TREND_METHODS_IMPORTS = "From Verde Require Import Model.Trend Proofs.TrendProofs Proofs.PyLiteBridge."
 
 
+_SPLINE = os.path.join("verde", "spline.py")
+SPLINE_FUNCS = [(_SPLINE, "predict_numpy"), (_SPLINE, "jacobian_numpy"), (_SPLINE, "Spline.jacobian"),
+                (_SPLINE, "Spline.predict"), (_SPLINE, "warn_weighted_exact_solution"), (_SPLINE, "Spline.fit")]
+SPLINE_THEOREMS = ["src_jacobian_numpy_eq", "src_predict_numpy_eq", "src_Spline_jacobian_eq", "src_Spline_predict_eq",
+                   "src_Spline_predict_unfitted", "src_warn_weighted_exact_solution_eq", "src_Spline_fit_eq",
+                   "src_Spline_fit_rejects"]
+
+
 def c03_obligations():
     """verde/trend.py: polynomial_power_combinations (as trend_obligations) and, in the same generated file,
     Trend.predict / Trend.jacobian against trend_predict / trend_jacobian of Model/Trend.v, with the callee
     polynomial_power_combinations instantiated by its serialised source, and the glue of Trend.fit (its callees
     Trend.jacobian and get_region instantiated by their serialised sources, check_fit_input and least_squares
     arbitrary functions) (harness/pylite_trend_methods.v.tmpl)"""
-    return tie("TrendSrc", os.path.join("verde", "trend.py"), TREND_FUNCS + TREND_METHODS_FUNCS,
-               ["pylite_trend.v.tmpl", "pylite_trend_methods.v.tmpl"], TREND_THEOREMS + TREND_METHODS_THEOREMS,
-               TREND_METHODS_IMPORTS)
+    # ... and verde/spline.py jacobian_numpy / predict_numpy / Spline.jacobian / Spline.predict / Spline.fit against the
+    # kernel-table loops of Model/Trend.v (harness/pylite_spline.v.tmpl; it reuses the lemmas of the two templates before)
+    return tie("TrendSrc", os.path.join("verde", "trend.py"), TREND_FUNCS + TREND_METHODS_FUNCS + SPLINE_FUNCS,
+               ["pylite_trend.v.tmpl", "pylite_trend_methods.v.tmpl", "pylite_spline.v.tmpl"],
+               TREND_THEOREMS + TREND_METHODS_THEOREMS + SPLINE_THEOREMS, TREND_METHODS_IMPORTS)
 
 
 LSQ_FUNCS = ["least_squares"]
